@@ -79,7 +79,8 @@ type Tr struct {
 }
 
 type allocInfo struct {
-	mk      ssa.Value // MakeMap value (a is nil then)
+	typ     types.Type // pointer type of an adopted fresh call result (a and mk are nil then)
+	mk      ssa.Value  // MakeMap value, or the SSA value holding an adopted fresh call result (a is nil then)
 	a       *ssa.Alloc
 	ref     string
 	escapes []ssa.Instruction // instructions at which the address (or a derived pointer) escapes
@@ -838,29 +839,78 @@ func (f *Frame) escapeWalk(ai *allocInfo, v ssa.Value, seen map[ssa.Value]bool) 
 	}
 }
 
-// escapedBefore reports whether alloc ai may have escaped when instruction `at` executes.
+// escapedBefore reports whether alloc ai may have escaped when instruction `at` executes. An escape in an earlier loop
+// iteration concerns the object of that iteration: only paths from the escape to `at` that do not pass through the
+// allocation point again count.
 func (f *Frame) escapedBefore(ai *allocInfo, at ssa.Instruction) bool {
 	if ai.always {
 		return true
 	}
+	var def ssa.Instruction
+	if ai.a != nil {
+		def = ai.a
+	} else if in, ok := ai.mk.(ssa.Instruction); ok {
+		def = in
+	}
 	ab := at.Block()
+	idx := func(b *ssa.BasicBlock, in ssa.Instruction) int {
+		for i, x := range b.Instrs {
+			if x == in {
+				return i
+			}
+		}
+		return -1
+	}
 	for _, e := range ai.escapes {
 		eb := e.Block()
 		if eb == ab {
-			if f.reach[ab.Index][ab.Index] {
+			ei, ai2 := idx(eb, e), idx(ab, at)
+			if ei <= ai2 {
+				// same block, escape first: unless the object is (re)created in between
+				if def != nil && def.Block() == eb {
+					di := idx(eb, def)
+					if di > ei && di <= ai2 {
+						continue
+					}
+				}
 				return true
 			}
-			for _, in := range ab.Instrs {
-				if in == e {
-					return true // e first (or same instruction)
-				}
-				if in == at {
-					break
-				}
-			}
-			continue
 		}
-		if f.reach[eb.Index][ab.Index] {
+		// search forward from the escape, not passing through the definition
+		seen := map[int]bool{}
+		var work []*ssa.BasicBlock
+		push := func(b *ssa.BasicBlock) {
+			if !seen[b.Index] {
+				seen[b.Index] = true
+				work = append(work, b)
+			}
+		}
+		// leaving eb: if the definition comes after e in eb, every path out of eb re-creates the object
+		if !(def != nil && def.Block() == eb && idx(eb, def) > idx(eb, e)) {
+			for _, s := range eb.Succs {
+				push(s)
+			}
+		}
+		found := false
+		for len(work) > 0 && !found {
+			b := work[len(work)-1]
+			work = work[:len(work)-1]
+			if b == ab {
+				// reached the block of `at`: does the definition sit before `at` in this block?
+				if def != nil && def.Block() == ab && idx(ab, def) <= idx(ab, at) {
+					continue
+				}
+				found = true
+				break
+			}
+			if def != nil && def.Block() == b {
+				continue // passing through the allocation point: a new object
+			}
+			for _, s := range b.Succs {
+				push(s)
+			}
+		}
+		if found {
 			return true
 		}
 	}
@@ -872,7 +922,7 @@ func (f *Frame) allocLocs(ai *allocInfo) [][2]string {
 	if ai.locs != nil {
 		return ai.locs
 	}
-	if ai.mk != nil {
+	if ai.mk != nil && ai.typ == nil {
 		if _, _, ok := mapSorts(ai.mk.Type()); ok {
 			vn, hn := mapHeapNames(ai.mk.Type())
 			ai.locs = [][2]string{{vn, ai.ref}, {hn, ai.ref}}
@@ -917,7 +967,11 @@ func (f *Frame) allocLocs(ai *allocInfo) [][2]string {
 			locs = append(locs, [2]string{"C/" + typeKey(t), ref})
 		}
 	}
-	walk(pointee(ai.a.Type()), ai.ref, 0)
+	if ai.typ != nil {
+		walk(pointee(ai.typ), ai.ref, 0)
+	} else {
+		walk(pointee(ai.a.Type()), ai.ref, 0)
+	}
 	// ghost map entries keyed by this ref are preserved as well
 	ai.locs = locs
 	return locs
